@@ -174,10 +174,13 @@ def d22_canary():
 def d15_canary():
     """Dedicated scenario for known finding D15: first() with an activity that fails while the
     consumer is suspended inside its own loop body."""
-    from ..c02trace import D15_CANARY
-    env, sess = one_run(D15_CANARY, None)
-    return [dict(vio, case={'canary': 'd15'}) for vio in sess.violations
-            if vio['mechanism'] == 'first-internal-cancelscope-hits-consumer'][:1]
+    from ..c02trace import D15_CANARY, D15_CANARY_PENDING
+    found = []
+    for program in (D15_CANARY, D15_CANARY_PENDING):
+        env, sess = one_run(program, None)
+        found += [dict(vio, case={'canary': 'd15'}) for vio in sess.violations
+                  if vio['mechanism'] == 'first-internal-cancelscope-hits-consumer'][:1]
+    return found[:1]
 
 
 def run_threads(case):
